@@ -13,8 +13,8 @@ Together with `Pfst.C09.table_sound` (the extracted table covers what the gramma
 non-atoms by consulting it and for atoms because the table never asks for parentheses around them (except `3 .real`,
 which is the special case in `need_pars`); `needed_enclosed` says that whenever `need_pars` answers yes the put node ends
 up inside parentheses; `needed_kept` that existing source parentheses are removed only when `need_pars` answers no;
-`enclosedOrLine_sound` that the line-structure answer "enclosed or one logical line" is right outside string literals,
-`enclosedOrLine_str_false` that it is NOT right for implicitly concatenated strings (a genuine defect).
+`enclosedOrLine_sound` / `enclosedOrLine_sound_str` that the line-structure answer "enclosed or one logical line" is
+right — since /repo 48b6578 also for (implicitly concatenated) string literals (finding C09-F1, fixed).
 -/
 namespace Pfst.C09b
 open Pfst.NeedPars Pfst.Gen.Precedence Pfst.Gen.Enclose Pfst.Prec
@@ -277,21 +277,19 @@ theorem enclosedOrLine_sound (lines : List Line) (checkPars : Bool) (i : Info) (
   · rw [hk] at h2; exact absurd h2 (by simp)
   · exact Or.inr (finish_sound lines _ l.ln l.col _ h3)
 
-/-
-Full statement wanted for string literals too: "… or the newline is inside a string continuation line, or directly
-preceded by a line continuation that is not in a comment".  Only the weaker statement below is provable: the code tests
-`lines[i].endswith('\\')`, which a comment ending in a backslash between two implicitly concatenated parts satisfies
-(`enclosedOrLine_str_false`).
--/
-/-- For string literals (`strLns` = the continuation lines tokenize reports, all inside the node): answer `True` ⇒ every
-line of the span but the last is followed by a string continuation line or ENDS IN A BACKSLASH (not necessarily a line
-continuation). -/
-theorem enclosedOrLine_sound_str_partial (lines : List Line) (checkPars : Bool) (i : Info) (kids : List Node) (l : Loc)
+/-- **… and for string literals** (`Constant` / `JoinedStr` / `TemplateStr`; `strLns` = the lines tokenize reports as
+continued INSIDE a string token, all inside the node — checked per case by the harness): answer `True` ⇒ every newline `j`
+of the span is inside a string token (`j + 1 ∈ strLns`), or line `j` ends in a backslash with no `#` between the walk
+column (the node's start column on its first line, 0 on later lines) and that backslash — a real line continuation, not
+the tail of a comment between two implicitly concatenated parts.  (Before /repo 48b6578 the code tested
+`lines[j].endswith('\\')` and this statement was false: finding C09-F1.) -/
+theorem enclosedOrLine_sound_str (lines : List Line) (checkPars : Bool) (i : Info) (kids : List Node) (l : Loc)
     (hl : i.loc = some l) (hk : isStrKind i.kind = true) (hnp : checkPars = false ∨ i.n = 0) (hml : l.endLn ≠ l.ln)
     (hs : ∀ x ∈ i.strLns, l.ln < x ∧ x ≤ l.endLn)
     (h : (eol lines checkPars (.mk i kids)).1.truthy = true) :
     eolAlways.contains i.kind = true ∨
-    ∀ j, l.ln ≤ j → j < l.endLn → (j + 1 ∈ i.strLns ∨ endsBackslash (lines.getD j []) = true) := by
+    ∀ j, l.ln ≤ j → j < l.endLn →
+      (j + 1 ∈ i.strLns ∨ lineEndCont (lines.getD j []) (if j = l.ln then l.col else 0) = true) := by
   rw [eol] at h
   simp only [hl] at h
   by_cases h1 : eolAlways.contains i.kind = true
@@ -329,14 +327,16 @@ private def strNode : Node :=
   .mk { kind := .«Constant», cstr := true, loc := some ⟨0, 0, 1, 4⟩, pars := some ⟨0, 0, 1, 4⟩, strLns := [] } []
 private def strLines : List Line := [L "\"s\"  # c\\", L " \"t\""]
 
-/-- **The string branch is NOT sound (genuine defect).**  For `"s"  # c\` / ` "t"` the model — and the real
-`_is_enclosed_or_line`, see the correspondence and finding C09-F1 — answers `True`, although newline 0 is neither inside a
-string token (tokenize reports no continuation line) nor preceded by a real line continuation: after the first part
-(column 3) the rest of line 0 is a comment.  `need_pars` therefore lets `pars='auto'` strip the parentheses of
-`("s"  # c\` / ` "t")` and the result does not parse. -/
-theorem enclosedOrLine_str_false :
-    (eol strLines false strNode).1 = .yes ∧ strNode.info.strLns = [] ∧
-    lineEndCont (strLines.getD 0 []) 3 = false ∧ (strLines.getD 0 []).contains '#' = true := by
+/-- the former defect witness (C09-F1, fixed in /repo 48b6578): the backslash on line 0 ends a comment, the answer is
+now `False` and line 0 is reported as the one needing a continuation -/
+example : eol strLines false strNode = (.no, [0]) := by decide +kernel
+/-- `"s" \` / ` "t"`: a real continuation between the parts — one logical line; the hypotheses of
+`enclosedOrLine_sound_str` are met by this node -/
+example : (eol [L "\"s\" \\", L " \"t\""] false strNode).1 = .yes ∧ isStrKind strNode.info.kind = true ∧
+    (∀ x ∈ strNode.info.strLns, 0 < x ∧ x ≤ 1) := by decide +kernel
+/-- a triple-quoted string over lines 0–1: line 1 is a continuation line reported by tokenize -/
+example : (eol [L "\"\"\"s", L "t\"\"\""] false
+    (.mk { kind := .«Constant», cstr := true, loc := some ⟨0, 0, 1, 4⟩, pars := some ⟨0, 0, 1, 4⟩, strLns := [1] } [])).1 = .yes := by
   decide +kernel
 
 /-! #### `need_pars` witnesses (non-vacuity of the hypotheses above) -/
